@@ -110,6 +110,18 @@ class Dispatcher:
             self.symkeys[id(d)] = ent
         return ent[1] if ent else None
 
+    def mkset(self, items):
+        items = _b.list(items)
+        if not any(is_sym(x) for x in items):
+            return _b.set(items)
+        return SymSet.from_iter(items)
+
+    def mkdict(self, pairs):
+        out = {}
+        for k, v in pairs:
+            self.setitem(out, k, v)
+        return out
+
     def setitem(self, obj, key, value):
         if isinstance(obj, dict) and not isinstance(obj, SymDict) and is_sym(key):
             if isinstance(key, SymChoice):
